@@ -32,7 +32,7 @@ def _pool_job(job):
     rng = np.random.default_rng(list(seed_tuple))
     # cluster-ambiguous, tie-heavy data: a symmetric integer grid
     n = int(rng.integers(8, 13))
-    X, y, y_true, classes, labeling = R.gen_data(rng, E.task, n=n, binary=E.binary, cold=str(rng.choice(["half", "few"])))
+    X, y, y_true, classes, labeling = R.gen_data(rng, E.task, n=n, binary=E.binary, cold=["half", "few", "cold", "half", "one_class"][seed_tuple[2] % 5])
     seed = int(rng.integers(0, 1000))
     bs = 1 if E.max_bs else int(rng.choice([1, 2, 3, 5, 7]))       # large batches too: BatchBALD leaves the exact joint-entropy regime
 
